@@ -320,6 +320,21 @@ def run_case(ta, cs, stats):
         unit_k = 4
         res.append(mk("ma", "matype=%d" % mt, "eq", toks(o, unit_k), ci, unit_k, series,
                       "matype=%d,period=%d,source_type=%s" % (mt, p, src), xa=toks(named, unit_k), tol=0))
+    elif kind == "ma_single":
+        # the selector called non-sequentially on inputs of growing length (beyond the 240-candle warm-up window) against
+        # the selected moving average called the same way; position j of the trace = the j-th input length
+        mt, p, src, lens = cs["matype"], cs["p"], cs["src"], cs["lens"]
+        kw = {"source_type": src}
+        if mt not in NO_PERIOD:
+            kw["period"] = p
+        o, named = [], []
+        for L in lens:
+            stats["calls"] += 2
+            o.append(ta.ma(c[:L], period=p, matype=mt, source_type=src, sequential=False))
+            named.append(getattr(ta, MA_NAMES[mt])(c[:L], sequential=False, **kw))
+        ci2 = {k2: [v[L - 1] for L in lens] for k2, v in ci.items()}
+        res.append(mk("ma", "matype=%d:single" % mt, "eq", toks(o, 6), ci2, 6, series + [list(lens)],
+                      "matype=%d,period=%d,source_type=%s,sequential=False" % (mt, p, src), xa=toks(named, 6), tol=0))
     elif kind == "range":
         ind, field, kw, lo_, hi_ = cs["row"]
         o = fld(call(ta, stats, ind, c, **kw), field)
@@ -423,8 +438,13 @@ def plan(ctx):
     for mt in sorted(MA_NAMES):
         for rep in range(ctx.pick(1, 3)):
             j += 1
-            cases.append({"kind": "ma", "matype": mt, "p": rng.choice([5, 9, 14, 30]), "src": rng.choice(PRICE_SRC),
+            cases.append({"kind": "ma", "matype": mt, "p": rng.choice([5, 9, 14, 30, 120]), "src": rng.choice(PRICE_SRC),
                           "series": (kinds[j % 3], 200, 1 + j % 3)})
+    for mt in sorted(MA_NAMES):
+        for p in ([14, 120] if quick else [5, 14, 60, 120, 200]):
+            j += 1
+            cases.append({"kind": "ma_single", "matype": mt, "p": p, "src": rng.choice(PRICE_SRC),
+                          "lens": [200, 240, 241, 300, 400, 700, 1000], "series": (["random", "trend"][j % 2], 1000, 1 + j % 3)})
     for row in RANGES:
         for kd in (["random", "spike", "flat", "monotone"] if quick else kinds):
             j += 1
